@@ -27,14 +27,15 @@ impl WireServer {
         let mut config = with_unix_socket(base_config_cached(), sock.clone());
         tweak(&mut config);
         let server = Server::start(config).await?;
-        // wait for the socket to appear
-        for _ in 0..2000 {
+        // wait for the socket to appear (it may still refuse connections for a moment: between bind
+        // and listen; the connect functions retry)
+        for _ in 0..20_000 {
             if sock.exists() {
                 return Ok(WireServer { server, sock });
             }
             tokio::time::sleep(Duration::from_millis(1)).await;
         }
-        Err("unix socket did not appear within 2 s".to_owned())
+        Err("unix socket did not appear within 20 s".to_owned())
     }
 
     pub async fn stop(self) -> Result<(), String> {
@@ -81,7 +82,18 @@ fn spawn_reader(r: impl AsyncRead + Unpin + Send + 'static) -> (mpsc::UnboundedR
 
 impl Session {
     pub async fn connect(sock: &PathBuf) -> Result<Session, String> {
-        let stream = UnixStream::connect(sock).await.map_err(|e| format!("connect: {e}"))?;
+        // a socket that exists but is not listening yet (or whose backlog is full) refuses the connection: retried
+        let mut tries = 0;
+        let stream = loop {
+            match UnixStream::connect(sock).await {
+                Ok(s) => break s,
+                Err(e) if tries < 2000 && matches!(e.kind(), std::io::ErrorKind::ConnectionRefused | std::io::ErrorKind::WouldBlock) => {
+                    tries += 1;
+                    tokio::time::sleep(Duration::from_millis(5)).await;
+                }
+                Err(e) => return Err(format!("connect: {e}")),
+            }
+        };
         let (r, w) = stream.into_split();
         let (rx, reader) = spawn_reader(r);
         Session { write: Some(WriteHalf::Unix(w)), rx, reader, welcome: Value::Null, closed: false }.await_welcome().await
